@@ -6,6 +6,9 @@ package main
 //   runResetsState        third argument of runCodeInternal in (*VirtualMachine).Run
 //   compileRollsBackOnError  (*Compiler).Compile takes `c.main.mark()` in its first statement and every return of a
 //                         non-nil error sits in a branch that calls `c.main.rollback(...)`
+//   firstPassOnEveryInput every call of c.collectFunctionDeclarations in compileMain sits at the top level of its body (the Init of a
+//                         top-level `if err := …`), before `c.compile(node)`: the first pass — the only place that refuses `func`
+//                         over an existing name — runs on every input, whatever its number of statements
 //   rollbackRestores      what (*Code).rollback assigns / which method of the symbol table it calls
 //   truncateRestores      what (*SymbolTable).truncate assigns / deletes from
 //   truncateDeleteGuarded every `delete(t.symbolsByName, s.name)` of (*SymbolTable).truncate sits directly under
@@ -309,6 +312,49 @@ func c18_genC18(repo string) string {
 		}
 		restorePairs = append(restorePairs, "("+leanStr(f)+", "+v+")")
 	}
+	// --- compileMain: the first pass (collectFunctionDeclarations) runs on every input, before the second pass
+	cmain := c18FindFunc(compFile, "Compiler", "compileMain")
+	firstCalls, firstTop, secondSeen := 0, 0, false
+	ast.Inspect(cmain.Body, func(n ast.Node) bool {
+		if c, ok := n.(*ast.CallExpr); ok && c18Expr(fset, c.Fun) == "c.collectFunctionDeclarations" {
+			firstCalls++
+		}
+		return true
+	})
+	callsIn := func(n ast.Node, fun string) bool {
+		found := false
+		if n == nil {
+			return false
+		}
+		ast.Inspect(n, func(x ast.Node) bool {
+			if c, ok := x.(*ast.CallExpr); ok && c18Expr(fset, c.Fun) == fun {
+				found = true
+			}
+			return true
+		})
+		return found
+	}
+	for _, st := range cmain.Body.List {
+		// `if err := c.f(node); err != nil {…}` (the call in the Init of a top-level if), or a top-level call / assignment
+		var head ast.Node = st
+		if is, ok := st.(*ast.IfStmt); ok {
+			head = is.Init
+			if head == nil {
+				continue
+			}
+		} else if _, ok := st.(*ast.ExprStmt); !ok {
+			if _, ok := st.(*ast.AssignStmt); !ok {
+				continue
+			}
+		}
+		if callsIn(head, "c.compile") {
+			secondSeen = true
+		}
+		if callsIn(head, "c.collectFunctionDeclarations") && !secondSeen {
+			firstTop++
+		}
+	}
+	firstPassEvery := firstCalls > 0 && firstTop == firstCalls
 	// --- compiler.Compile: rollback on error
 	comp := c18FindFunc(compFile, "Compiler", "Compile")
 	marksFirst := false
@@ -508,6 +554,7 @@ func c18_genC18(repo string) string {
 	s += "/-- the resetState argument (*VirtualMachine).Run passes to runCodeInternal -/\ndef runResetsState : Bool := " + reset + "\n\n"
 	s += "/-- reloadCode copies the old Globals slice into the newly loaded main code -/\ndef reloadCopiesGlobals : Bool := " + b(copies) + "\n\n"
 	s += "/-- (*Compiler).Compile takes c.main.mark() first and every error return follows c.main.rollback(mark) (error returns: " + strconv.Itoa(errReturns) + ") -/\ndef compileRollsBackOnError : Bool := " + b(rollsBack) + "\n\n"
+	s += "/-- every call of collectFunctionDeclarations in compileMain is at the top level of its body (or the Init of a top-level if) and before c.compile (calls: " + strconv.Itoa(firstCalls) + ") -/\ndef firstPassOnEveryInput : Bool := " + b(firstPassEvery) + "\n\n"
 	s += "/-- what (*Code).rollback assigns and calls -/\ndef rollbackRestores : List String := " + q(rollbackRestores) + "\n\n"
 	s += "/-- what (*SymbolTable).truncate assigns and deletes from -/\ndef truncateRestores : List String := " + q(truncateRestores) + "\n\n"
 	s += "/-- every deletion from t.symbolsByName in (*SymbolTable).truncate is under `if t.symbolsByName[s.name] == s` (deletions: " + strconv.Itoa(deletes) + ") -/\ndef truncateDeleteGuarded : Bool := " + b(deleteGuarded) + "\n\n"
